@@ -3,7 +3,7 @@
    the surplus, the packets are sent regardless).  Known finding C03-reconnect-lower-rm. *)
 From Coq Require Import List NArith ZArith Bool.
 Import ListNotations.
-From VMQ Require Import model.Flow model.Writer.
+From VMQ Require Import model.Flow model.Writer model.AckOrder proofs.AckOrderProofs.
 Open Scope N_scope.
 
 Theorem C03_reconnect_lower_rm_refuted :
@@ -18,3 +18,12 @@ Proof.
           EClose 0; EOpen 1; EPop 0; EPop 0; EPop 0].
   vm_compute. split; reflexivity.
 Qed.
+
+(* The order ackQueue.release had before 54a79b6 (the release callback first, the entry of the unacknowledged set
+   afterwards; model/AckOrder.v variant 1): one interleaving with the writer's pop leaves a transmitted message
+   unregistered while its identifier stays in use and its slot stays taken - Receive Maximum 1, nothing
+   registered, quota 0. *)
+Theorem C03_ack_order_as_it_was_refuted :
+  let s := arun 1 (astart 1 [(1, 10)] [20]) [AckBegin 1; AckStep; Pop; AckStep] in
+  apcs s = AIdle /\ aq s = [] /\ reg s = [] /\ inuse (afl s) = [1] /\ quota (afl s) = 0%Z.
+Proof. exact ack_order_as_it_was_refuted. Qed.
